@@ -111,6 +111,10 @@ func verifSanitize(m string) []byte {
 			!(c == 0xE0 && m[i+1] < 0xA0) && !(c == 0xED && m[i+1] >= 0xA0):
 			out = append(out, c, m[i+1], m[i+2])
 			i += 3
+		case c >= 0xF0 && c <= 0xF4 && i+3 < len(m) && m[i+1] >= 0x80 && m[i+1] <= 0xBF && m[i+2] >= 0x80 && m[i+2] <= 0xBF &&
+			m[i+3] >= 0x80 && m[i+3] <= 0xBF && !(c == 0xF0 && m[i+1] < 0x90) && !(c == 0xF4 && m[i+1] >= 0x90):
+			out = append(out, c, m[i+1], m[i+2], m[i+3])
+			i += 4
 		default:
 			out = append(out, 0xEF, 0xBF, 0xBD)
 			i++
@@ -155,4 +159,17 @@ func VerifStructuredStdout() {
 	d.log(time.Unix(0, 0).UTC(), Warn, "%s", msg)
 	verifCheckRecord(sink.data, msg)
 	vnd.Cover(len(msg) == 2, "two-byte message")
+}
+
+// VerifStructuredAstral: messages made of one code point outside the basic plane (a valid four-byte
+// UTF-8 sequence: emoji, tag characters, private use, non-characters).
+func VerifStructuredAstral() {
+	msg := vnd.String("msg", 4)
+	vnd.Assume(msg[0] >= 0xF0 && msg[0] <= 0xF4 && msg[1] >= 0x80 && msg[1] <= 0xBF && msg[2] >= 0x80 && msg[2] <= 0xBF && msg[3] >= 0x80 && msg[3] <= 0xBF)
+	vnd.Assume(!(msg[0] == 0xF0 && msg[1] < 0x90) && !(msg[0] == 0xF4 && msg[1] >= 0x90))
+	sink := &verifSink{}
+	d := &destinationStdout{structured: true, stdout: sink}
+	d.log(time.Unix(0, 0).UTC(), Warn, "%s", msg)
+	verifCheckRecord(sink.data, msg)
+	vnd.Cover(msg[0] == 0xF3, "code point in planes 12 to 15")
 }
